@@ -87,6 +87,13 @@ def check_constant(ctx):
         sp = ModSpec(ctx.prog, 'traffic_weaver.process', {'x': x, 'y': y, 'new_x': nx, 'left': left}, inline=inline_except(*SCANS))
         sp.exec('idx = find_closest_lower_equal_element_indices_to_values(x, new_x)\nge = new_x >= x[0]\nlt = new_x < x[0]\n')
         stores = [e for e in ev.events if e.kind == 'store']
+        if not stores:
+            from .common import foreign_heads
+            fh_ = foreign_heads(res, Num(y.r, Ln, 'ndarray')) if isinstance(res, Val) else []
+            if fh_:
+                ctx.unknown('C13.2', f"{tag}: piecewise-constant evaluation", f"built without the two masked stores, from {fh_}: construction not recognised\n"
+                                                                           f"code: {show(arr_term(res), 240)}", fi.loc(), fi.qualname, f"n:{tag}")
+                continue
         ctx.check(len(stores) == 2, 'C13.2', f"{tag}: two masked stores", f"{len(stores)} stores", fi.loc(), fi.qualname, f"n:{tag}")
         want = [(sp.val('ge'), sp.val('y[idx[ge]]')), (sp.val('lt'), sp.val('left if left is not None else y[0]'))]
         seen = set()
